@@ -73,15 +73,20 @@ Section M.
   (** ** One field, one wavelength *)
   Record wfcfg := mkWC {
     w_ftype : string;        (* optic.field_type *)
-    w_maxx : T; w_maxy : T;  (* fields.max_x_field, fields.max_y_field *)
+    w_maxfield : T;          (* fields.max_field *)
     w_EPD : T                (* paraxial.EPD() *)
   }.
+
+  (** indices of the end media at the wavelength of the trace: object_surface.material_post.n(w) is the
+      index in front of the first surface, image_surface.material_pre.n(w) the one in front of the last *)
+  Definition n_object (ss : list (surf O)) : T := match ss with s :: _ => s_n1 s | [] => ofZ 1 end.
+  Definition n_image (ss : list (surf O)) : T := match rev ss with s :: _ => s_n1 s | [] => ofZ 1 end.
 
   (** the column of one ray in the (surfaces, rays) record arrays: the object surface records the launch *)
   Definition col (f : ray O -> T) (l0 : ray O) (recs : list (ray O)) : list T := map f (l0 :: recs).
 
   (** _trace_chief_ray + _get_reference_sphere + _get_path_length + _correct_tilt(x=0, y=0) *)
-  Definition chief_ref (ss : list (surf O)) (pupil_z : T) (c : wfcfg) (Hx Hy : T) (l0 : ray O)
+  Definition chief_ref (ss : list (surf O)) (pupil_z : T) (c : wfcfg) (Hx Hy vx vy : T) (l0 : ray O)
     : option (T * T * T * T * T) :=
     match trace ss l0 with
     | None => None
@@ -89,24 +94,24 @@ Section M.
         match k_wf_ref_sphere O pupil_z (col rx l0 recs) 1%Z (col ry l0 recs) (col rz l0 recs) with
         | None => None
         | Some (xc, yc, zc, R) =>
-            let p := k_wf_get_path_length O xc yc zc R (col ropd l0 recs) (col rx l0 recs) (col ry l0 recs)
+            let p := k_wf_get_path_length O xc yc zc R (col ropd l0 recs) (n_image ss) (col rx l0 recs) (col ry l0 recs)
                        (col rz l0 recs) (col rL l0 recs) (col rM l0 recs) (col rN l0 recs) in
-            let ref := k_wf_tilt_xy O p (ofZ 0) (ofZ 0) (w_ftype c) Hx Hy (w_maxx c) (w_maxy c) (w_EPD c) in
+            let ref := k_wf_tilt_xy O p (ofZ 0) (ofZ 0) (w_ftype c) Hx Hy (w_maxfield c) vx vy (w_EPD c) (n_object ss) in
             Some (xc, yc, zc, R, ref)
         end
     end.
 
   (** one ray of the batch: trace, then _generate_field_data's arithmetic; (dx, dy) is the
       distribution point the ray is REPORTED at *)
-  Definition sample (ss : list (surf O)) (c : wfcfg) (w Hx Hy : T) (ref : T * T * T * T * T)
+  Definition sample (ss : list (surf O)) (c : wfcfg) (w Hx Hy vx vy : T) (ref : T * T * T * T * T)
              (l0 : ray O) (dx dy : T) : option (T * T) :=
     let '(xc, yc, zc, R, opd_ref) := ref in
     match trace ss l0 with
     | None => None
     | Some recs =>
-        Some (k_wf_field_data O w opd_ref xc yc zc R (col ri l0 recs) (col ropd l0 recs) (col rx l0 recs)
+        Some (k_wf_field_data O w opd_ref xc yc zc R (col ri l0 recs) (col ropd l0 recs) (n_image ss) (col rx l0 recs)
                 (col ry l0 recs) (col rz l0 recs) (col rL l0 recs) (col rM l0 recs) (col rN l0 recs)
-                (w_ftype c) Hx Hy (w_maxx c) (w_maxy c) dx dy (w_EPD c))
+                (w_ftype c) Hx Hy (w_maxfield c) vx vy dx dy (w_EPD c) (n_object ss))
     end.
 
   Fixpoint sequence {A} (l : list (option A)) : option (list A) :=
@@ -117,12 +122,12 @@ Section M.
     end.
 
   (** the (opd, intensity) cell of Wavefront.data from explicit launch rays *)
-  Definition field_data_from (ss : list (surf O)) (pupil_z : T) (c : wfcfg) (w Hx Hy : T)
+  Definition field_data_from (ss : list (surf O)) (pupil_z : T) (c : wfcfg) (w Hx Hy vx vy : T)
              (chief : ray O) (batch : list (ray O * (T * T))) : option (list T * list T) :=
-    match chief_ref ss pupil_z c Hx Hy chief with
+    match chief_ref ss pupil_z c Hx Hy vx vy chief with
     | None => None
     | Some ref =>
-        match sequence (map (fun '(l0, (dx, dy)) => sample ss c w Hx Hy ref l0 dx dy) batch) with
+        match sequence (map (fun '(l0, (dx, dy)) => sample ss c w Hx Hy vx vy ref l0 dx dy) batch) with
         | None => None
         | Some cells => Some (map fst cells, map snd cells)
         end
@@ -139,7 +144,7 @@ Section M.
                                match launch lc w Hx Hy (scaled dx vx) (scaled dy vy) vx vy with
                                | None => None | Some l0 => Some (l0, (dx, dy)) end) dist) with
         | None => None
-        | Some batch => field_data_from ss pupil_z c w Hx Hy chief batch
+        | Some batch => field_data_from ss pupil_z c w Hx Hy vx vy chief batch
         end
     end.
 
@@ -155,8 +160,8 @@ Section M.
     end.
   Definition lc_of (ps : list (psurf O)) (ap : aptype) (apv : T) (angle : bool) (maxfield : T) : launchcfg :=
     mkLC (isinf_ (pos ps 0)) angle maxfield (EPD ps ap apv) (EPL ps) (pos ps 0) (pos ps 1) (minpos ps) (pos ps 0).
-  Definition wc_of (ps : list (psurf O)) (ap : aptype) (apv : T) (angle : bool) (maxx maxy : T) : wfcfg :=
-    mkWC (if angle then "angle" else "object_height")%string maxx maxy (EPD ps ap apv).
+  Definition wc_of (ps : list (psurf O)) (ap : aptype) (apv : T) (angle : bool) (maxfield : T) : wfcfg :=
+    mkWC (if angle then "angle" else "object_height")%string maxfield (EPD ps ap apv).
 
   (** Wavefront._generate_data: fields x wavelengths; [lens w] are the surfaces with the indices at w *)
   Record fieldspec := mkFS { f_Hx : T; f_Hy : T; f_vx : T; f_vy : T }.
